@@ -357,7 +357,7 @@ def check(tier):
     # first row = initial condition with the assignment rules applied: the real interface's rule passes (plain and volume-aware, rules that
     # mention t and volume included) applied to the initial state are what the loops' init/record obligations put in row 0
     from . import C09
-    for idx in (0, 2, 4):
+    for idx in (0, 2, 4, 5):
         ck.add("first-row-rules/%d" % idx, "harness.C09", "interface_job", dict(cases=[(idx, "plain", 1)]))
     # deterministic mode: the rows handed back are the integrator's rows with the rules applied to each of them exactly once
     ck.add("deterministic-rows", "harness.C09", "deterministic_job", dict(cases=[(2, 2, 2)]), fresh=True)
